@@ -142,6 +142,10 @@ def primitives(ctx, rule):
         good = [p for p in oks if any(e.kind == "call" and e.path.endswith("extend_from_slice") for e in p.events)]
         ctx.check(len(oks) >= 1 and len(good) == len(oks), rule, pk, "append", "A.push(A) appends (extend_from_slice) in order",
                   "SummaryValue::push does not append with extend_from_slice on every returning path", fn_span(body))
+        # ... and does nothing else to the stored lines: no dedup / sort / retain / truncate / insert after (or before) the append
+        mu = mutators_of(ps, lambda t: mentions(t, lambda s_: s_ == ("param", 1)))
+        other = sorted(k for k in mu if k not in ("extend_from_slice", "extend", "push", "append", "extend_from_within", "reserve", "deref_mut", "as_mut"))
+        ctx.check(not other, rule, pk, "append-only", "the stored lines are only appended to", "SummaryValue::push also modifies the stored lines through %s: lines are dropped, merged or reordered" % other, fn_span(body))
     # the reader primitives hand back the stored payload of the matching kind, unchanged (no cast, no arithmetic)
     for key, kind in READERS.items():
         ps = ctx.paths(key)
